@@ -115,9 +115,11 @@ def const_arg(t, i):
     return None
 
 
-def pair(ctx, res):
+def pair(ctx, res, only=None):
+    """`only`: restrict to the named writer rows (other properties reuse the rows they depend on)."""
     P = ctx.P
     rule = "C06.pair"
+    want = lambda name: only is None or name in only
 
     def need(path):
         f = find_fn(P, path)
@@ -127,7 +129,7 @@ def pair(ctx, res):
 
     IM = "^json_syntax::object::index_map::IndexMap::<S>::"
     # push_entry: len -> push -> insert(entries, that len)
-    f = need("json_syntax::Object::push_entry")
+    f = need("json_syntax::Object::push_entry") if want("push_entry") else None
     if f:
         dom = static.dominators(f)
         push = call_blocks(P, f, r"^std::vec::Vec::<T, A>::push$")
@@ -139,7 +141,7 @@ def pair(ctx, res):
             res.ob(o[0] == "call" and o[1] == "std::vec::Vec::<T, A>::len" and dominates(dom, [bi for bi, c, t in static.calls(P, f) if t is o[2]][0], push[0][0]), rule, rule + "/push_entry/position",
                    "push_entry must index the new entry at the pre-push length (position argument comes from %r)" % (o[:2],), sample={"writer": "push_entry", "position": "entries.len() before the push"})
     # push_entry_front: insert(0) -> shift_up(0) -> insert(.., 0)
-    f = need("json_syntax::Object::push_entry_front")
+    f = need("json_syntax::Object::push_entry_front") if want("push_entry_front") else None
     if f:
         dom = static.dominators(f)
         vi = call_blocks(P, f, r"^std::vec::Vec::<T, A>::insert$")
@@ -152,7 +154,7 @@ def pair(ctx, res):
             res.ob(const_arg(vi[0][2], 1) == 0 and const_arg(su[0][2], 1) == 0 and const_arg(ins[0][2], 2) == 0, rule, rule + "/push_entry_front/position",
                    "push_entry_front: positions must all be 0 (Vec::insert %r, shift_up %r, IndexMap::insert %r)" % (const_arg(vi[0][2], 1), const_arg(su[0][2], 1), const_arg(ins[0][2], 2)))
     # remove_at: guard; IndexMap::remove -> shift_down -> Vec::remove, same index
-    f = need("json_syntax::Object::remove_at")
+    f = need("json_syntax::Object::remove_at") if want("remove_at") else None
     if f:
         dom = static.dominators(f)
         rm = call_blocks(P, f, IM + "remove$")
@@ -169,6 +171,8 @@ def pair(ctx, res):
             res.ob(len(lens) >= 1 and dominates(dom, lens[0][0], rm[0][0]), rule, rule + "/remove_at/guard", "remove_at must check the index against the length first")
     # sort / canonicalize_with: sort_by -> clear -> re-insert every position
     for path in ("json_syntax::Object::sort", "json_syntax::Object::canonicalize_with"):
+        if not want(path.rsplit("::", 1)[-1]):
+            continue
         f = find_fn(P, path)
         if f is None:
             if path.endswith("::sort"):
@@ -190,16 +194,17 @@ def pair(ctx, res):
             rng = [o for o in (static.origin(f, i[2]["args"][2]) for i in ins)]
             res.ob(loop_over_len(P, f), rule, rule + "/%s/all-positions" % name, "%s must re-insert every position 0..entries.len()" % name)
     # from_vec
-    f = find_fn(P, "json_syntax::Object::from_vec")
+    f = find_fn(P, "json_syntax::Object::from_vec") if want("from_vec") else None
     if f is None:
-        need("json_syntax::Object::from_vec")
+        if want("from_vec"):
+            need("json_syntax::Object::from_vec")
     else:
         ins = call_blocks(P, f, IM + "insert$")
         muts = entry_vec_mutations(P, f)
         res.ob(len(ins) == 1 and loop_over_len(P, f) and not muts, rule, rule + "/from_vec", "from_vec must keep the given entries as they are (no %s) and index every position 0..len (IndexMap::insert x%d)" % (
             [c["path"].rsplit("::", 1)[-1] for _, c, _ in muts], len(ins)), sample={"writer": "from_vec", "indexes": "every position, entries untouched"})
     # insert / insert_front: the replaced position is obtained from a lookup of the same key
-    f = need("json_syntax::Object::insert")
+    f = need("json_syntax::Object::insert") if want("insert") else None
     if f:
         io = call_blocks(P, f, r"^json_syntax::Object::index_of$")
         sw = call_blocks(P, f, r"^std::mem::swap$")
@@ -275,7 +280,7 @@ def shift(ctx, res):
     res.floor(rule, "shift_cases", 20)
 
 
-def sorted_rule(ctx, res):
+def sorted_rule(ctx, res, insert_only=False):
     P = ctx.P
     rule = "C06.sorted"
     try:
@@ -307,7 +312,7 @@ def sorted_rule(ctx, res):
             res.ob(got == want, rule, "%s/insert/rep=%d/others=%s/x=%d" % (rule, rep, "-".join(map(str, others)) or "none", x),
                    "Indexes::insert(%d) turns (rep=%d, others=%r) into (rep=%r, others=%r): the representative must be the smallest position and the others sorted without repetition" % (x, rep, others, got[0], got[1]),
                    sample={"insert": x, "before": [rep, list(others)], "after": allpos} if (rep, others, x) == (5, (7, 9), 8) else None)
-    for rep, others in ((5, ()), (5, (7,)), (5, (7, 9)), (5, (6, 8, 10, 12))):
+    for rep, others in ((5, ()), (5, (7,)), (5, (7, 9)), (5, (6, 8, 10, 12))) if not insert_only else ():
         for x in (5,) + others + (99,):
             sh = shape.Shape(P)
             vec = sh.st.new_obj(AVec(tuple(Conc(o) for o in others), "other"))
@@ -332,13 +337,15 @@ def sorted_rule(ctx, res):
                    "Indexes::remove(%d) turns (rep=%d, others=%r) into (rep=%r, others=%r) returning %r: the smallest remaining position must become the representative, the rest stay sorted, and only the removal of the last position returns false" % (
                        x, rep, others, got[0], got[1], got[2]), sample={"remove": x, "before": [rep, list(others)], "after": allpos} if (rep, x) == (5, 5) and len(others) == 4 else None)
     res.count("index_bucket_cases", n)
-    res.floor(rule, "index_bucket_cases", 40)
+    res.floor(rule, "index_bucket_cases", 40 if not insert_only else 28)
     # the needle of the binary search is the inserted position
     bs = [(bi, c, t) for bi, c, t in static.calls(P, ins) if c is not None and c["path"] == "core::slice::<impl [T]>::binary_search"]
     if len(bs) == 1:
         o = static.origin(ins, bs[0][2]["args"][1])
         res.ob(o[0] == "param" and o[1] == 2, rule, rule + "/insert/needle", "Indexes::insert searches `other` for something else than the position being inserted (%r)" % (o,), sample={"binary_search_needle": "the inserted position"})
     # map-level removal erases the bucket when the last position goes
+    if insert_only:
+        return
     try:
         mr = shape.find_inst(P, r"^json_syntax::object::index_map::IndexMap::remove$")
         er = [(bi, c, t) for bi, c, t in static.calls(P, mr) if c is not None and re.search(r"RawTable::<.*>::remove$", c["name"])]
